@@ -500,6 +500,83 @@ def gen_malformed(rng):
 
 # ---------------------------------------------------------------------------------------------- run
 
+MEASURED = ('ts', 'fps', 'cpu', 'mem', 'lat_in', 'lat_out', 'uptime_count', 'gpu')     # what Metrics.outgoing() measures (overrides equal keys of a forwarded _metrics frame)
+
+
+def mq_campaign(ctx, n):
+    """The property one layer up: a REAL publishing MQ and a REAL consuming MQ ('*' subscription: hidden topics too) on the fake network, the frame set goes through
+    MQ.send() (its callback: metrics / _filter injection, frames2topicmsgs) and MQ.recv() (topicmsgs2frames).  What the next filter gets is what was sent - for every
+    outputs_metrics (False / True / dedicated address) x outputs_filter x outputs_jpg, also when the set itself carries hidden topics named _metrics / _filter (a filter that
+    forwards what it subscribed to) - up to the documented injection: with outputs_metrics=True the _metrics topic carries the sender's measurements merged over what was
+    sent, with outputs_filter=True _filter carries the frame id; and send() does not modify the sender's own frames."""
+    np, cv2 = _libs()
+    import copy
+    from .. import fakezmq
+    from openfilter.filter_runtime.frame import Frame
+    res, rng = ctx.result, ctx.rng
+    if ctx.replay: cases = [ctx.replay['case']] if ctx.replay.get('case', {}).get('kind') == 'mq' else []
+    else:
+        cases = [c for c in ctx.corpus if c.get('kind') == 'mq']
+        for _ in range(n):
+            topics = rng.sample(['main', 'aux', '_hid', '_metrics', '_filter', 'x'], rng.randint(0, 4))
+            fr = []
+            for t in topics:
+                d = rng.choice([{}, {'k': rng.randint(0, 9)}, {'cpu': 'upstream', 'n': [1, 2]}, {'meta': {'id': rng.randint(0, 99)}, 'v': None}])
+                fr.append({'t': t, 'data': d, 'img': rng.choice([None, None, 'BGR', 'GRAY'])})
+            cases.append({'kind': 'mq', 'frames': fr, 'metrics': rng.choice([False, False, True, 'addr']), 'filter': rng.random() < 0.4, 'jpg': rng.choice([False, None, True])})
+    for c in cases:
+        w = fakezmq.World(); fakezmq.install(w)
+        from openfilter.filter_runtime import mq as M
+        fakezmq.quiet_metrics(M)
+        viol = []
+        try:
+            pub = M.MQ(None, 'ipc://c09p', 'p', outs_metrics=('ipc://c09m' if c['metrics'] == 'addr' else c['metrics']), outs_filter=c['filter'], outs_jpg=c['jpg'], mq_log=False)
+            con = M.MQ([('ipc://c09p', [('*', '*')])], None, 'c', outs_metrics=False, outs_filter=False, mq_log=False)
+            sent = {}
+            for f in c['frames']:
+                if f['img'] is None: sent[f['t']] = Frame(copy.deepcopy(f['data']))
+                else: sent[f['t']] = Frame(np.full((4, 6) if f['img'] == 'GRAY' else (4, 6, 3), 40, np.uint8), copy.deepcopy(f['data']), f['img'])
+            before = {t: (copy.deepcopy(f.data), f.has_image) for t, f in sent.items()}
+            got, done = None, False
+            for _ in range(12):
+                w.now += 50_000_000
+                if got is None:
+                    got = con.recv(0)
+                w.deliver_due()
+                if not done: done = bool(pub.send(sent, 0))
+                w.deliver_due()
+                if got is not None and done: break
+            for t, f in sent.items():
+                if (f.data, f.has_image) != before[t]: viol.append(('mq-send-modified-sender-frame', f'send() changed the sender\'s own frame {t!r}: data {before[t][0]!r} -> {f.data!r}'[:300]))
+            if got is None: viol.append(('mq-not-delivered', 'the frame set never arrived'))
+            else:
+                exp = list(before)
+                if c['metrics'] is True and '_metrics' not in exp: exp.append('_metrics')
+                if c['filter'] and '_filter' not in exp: exp.append('_filter')
+                if list(got) != exp: viol.append(('mq-topics', f'sent {list(before)} (+ injection) expected {exp} got {list(got)}'))
+                for t, (d0, hi) in before.items():
+                    if t not in got: continue
+                    g = got[t].data
+                    if t == '_metrics' and c['metrics'] is True:
+                        bad = {k: (v, g.get(k)) for k, v in d0.items() if k not in MEASURED and g.get(k) != v}
+                        if bad: viol.append(('mq-data', f'_metrics: forwarded keys altered {bad}'[:300]))
+                    elif t == '_filter' and c['filter']:
+                        if 'id' not in g: viol.append(('mq-data', f'_filter without id: {g!r}'[:200]))
+                    elif g != d0: viol.append(('mq-data', f'{t!r}: sent data {d0!r} got {g!r}'[:300]))
+                    replaced = (t == '_metrics' and c['metrics'] is True) or (t == '_filter' and c['filter'])      # the injected frame takes the topic's place
+                    if not replaced and got[t].has_image != hi: viol.append(('mq-presence', f'{t!r}: has_image {hi} -> {got[t].has_image}'))
+        except Exception as e:
+            viol.append(('exception:mq:' + errname(e), f'MQ round trip raised {type(e).__name__}: {str(e)[:120]}'))
+        finally:
+            for q in ('pub', 'con'):
+                try: locals()[q].destroy()
+                except Exception: pass
+        res.note({k: v for k, v in c.items()}, bool(c['frames']))
+        if not viol: res.traces_validated += 1
+        for key, what in viol[:1]: res.violations.append(Violation(key, what, c))
+    res.extra['mq_roundtrips'] = len(cases)
+
+
 def reuse_campaign(ctx, n):
     """The codec is a FUNCTION of the frame set it is given (the model is stateless): consecutive sends that wrap the SAME ndarray
     object - a capture / drawing buffer refilled in place - must each round-trip to the pixels the buffer holds at that moment."""
@@ -548,13 +625,14 @@ def run(ctx):
     logging.disable(logging.CRITICAL)
     res, rng = ctx.result, ctx.rng
     reuse_campaign(ctx, 3000 if ctx.thorough else 300)
-    if ctx.replay and ctx.replay.get('case', {}).get('kind') == 'reuse': return
+    mq_campaign(ctx, 3000 if ctx.thorough else 300)
+    if ctx.replay and ctx.replay.get('case', {}).get('kind') in ('reuse', 'mq'): return
     if ctx.replay:
         # twice: a failure may need the consumer-side annotation of an earlier decoded frame (state shared between decoded frames)
         cases = [ctx.replay['case'], ctx.replay['case']] if ctx.replay.get('case') else []
     else:
         n = 200000 if ctx.thorough else (15000 if ctx.escalate else 5000)
-        cases = [c['case'] if 'case' in c else c for c in ctx.corpus if (c.get('case') or c).get('kind') != 'reuse']
+        cases = [c['case'] if 'case' in c else c for c in ctx.corpus if (c.get('case') or c).get('kind') not in ('reuse', 'mq')]
         for _ in range(n):
             cases.append(gen_malformed(rng) if rng.random() < 0.15 else gen_case(rng))
     dist = {'kinds': {}, 'fmt': {}, 'outs_jpg': {}, 'partlists': {}, 'enc': {}, 'topics': {}, 'sizeclass': {}, 'data': {}, 'layout': {}, 'malformed_outcome': {}, 'impl_errors': {}}
